@@ -159,6 +159,12 @@ func (b *Backend) serve(w http.ResponseWriter, r *http.Request) {
 	b.Reqs = append(b.Reqs, rec)
 	respond := b.Respond
 	b.mu.Unlock()
+	// A backend needs some time to answer. Answering within microseconds of the last request byte races
+	// with net/http's own Transport.writeLoop in the proxy, which may still be finishing its bookkeeping
+	// on the inbound request body when the front server (about to write the response) closes that body:
+	// "invalid Read on closed Body", backend connection torn down, response truncated. That window is
+	// inside the standard library (see DESIGN section 6); one millisecond of fake time closes it.
+	time.Sleep(time.Millisecond)
 	if respond != nil {
 		respond(w, r, rec)
 		return
@@ -364,6 +370,9 @@ func (p *Proxy) Stop() error {
 	err := <-p.ServeErr
 	p.Transport.CloseIdleConnections()
 	p.Backend.Close()
+	// backend handlers may still be in their answer delay (see Backend.serve): let them run out before
+	// anybody takes a goroutine census
+	time.Sleep(3 * time.Millisecond)
 	return err
 }
 
